@@ -47,6 +47,13 @@ assumptions(PROP, [
     "largest error observed over 500 generated meshes: 2.4e-15 of that scale",
     "gradient_3D is given element rows in the documented node order (bricks: bottom face counter-clockwise, then top face); "
     "rows of different elements may be interleaved as long as the relative order within an element is kept",
+    "mesh mapping: the sources live on a grid of 1/64 cell size (node displacements and cloud offsets are exactly 0 or >= 1/64): "
+    "barycentric interpolation in a simplex of flatness d has rounding error eps/d for any implementation, so nearly flat Delaunay "
+    "simplices (a node 1e-9 off the plane of its neighbours gave 1.5e-8 max|v|) are a conditioning matter outside the clause; with "
+    "the grid d >= ~1e-3",
+    "surface: F19_b excuses only a missed surface flag at a node where the true corner angles leave the sphere open but the largest "
+    "node triples of the bricks (Surface3D's stand-in for the corner angle, exact for convex corners only) fill it; computed "
+    "independently with the Van Oosterom-Strackee formula",
     "mesh mapping: nodal fields only (one value per coordinate); tolerance 1e-9 * max|value| (barycentric weights carry the "
     "rounding error eps * cond(simplex); largest error observed over 3000 generated cases: 3e-14 of that scale); interior target points are convex combinations of all nodes of one element / of a spanning simplex plus further points, every weight >= 1/43",
     "call history (mapping_held_accessor): two sources with equal index, different coordinates and values, histories ab/aba/bab/aab "
@@ -204,6 +211,41 @@ def gradient_lsq_linear(case, ctx):
 
 
 # ------------------------------------------------------------------------------------------ surface
+_HEX_EDGES = {0: (1, 3, 4), 1: (0, 2, 5), 2: (1, 3, 6), 3: (0, 2, 7), 4: (0, 5, 7), 5: (1, 4, 6), 6: (2, 5, 7), 7: (3, 4, 6)}
+
+
+def _solid_angle(a, b, c):
+    """Solid angle of the trihedral cone spanned by a, b, c (Van Oosterom / Strackee)."""
+    na, nb, nc = (math.sqrt(sum(x * x for x in v)) for v in (a, b, c))
+    dot = lambda u, v: sum(x * y for x, y in zip(u, v))     # noqa: E731
+    det = (a[0] * (b[1] * c[2] - b[2] * c[1]) - a[1] * (b[0] * c[2] - b[2] * c[0]) + a[2] * (b[0] * c[1] - b[1] * c[0]))
+    return 2.0 * math.atan2(abs(det), na * nb * nc + dot(a, b) * nc + dot(a, c) * nb + dot(b, c) * na)
+
+
+def corner_angle_sums(case, g):
+    """For grid node g: (sum over its bricks of the solid angle of the corner = cone of the three brick edges meeting there,
+    sum over its bricks of the LARGEST solid angle any three other nodes of the brick span)."""
+    import itertools
+    xyz = gm.coordinates(case)
+    s_edges = s_max = 0.0
+    for el in gm.elements_of(case):
+        if g not in el:
+            continue
+        a = el.index(g)
+        vec = {k: [xyz[el[k]][d] - xyz[g][d] for d in range(3)] for k in range(8) if k != a}
+        s_edges += _solid_angle(*[vec[k] for k in _HEX_EDGES[a]])
+        s_max += max(_solid_angle(vec[i], vec[j], vec[k]) for i, j, k in itertools.combinations(sorted(vec), 3))
+    return s_edges, s_max
+
+
+def f19b_class(case, g):
+    """Input class of F19_b: a boundary node whose true corner angles leave part of the sphere free (sum < 4 pi - 1e-5, so it
+    is at the surface by Surface3D's own criterion), but some brick corner there is not convex (warped faces: another node of
+    the brick lies outside the cone of the three edges) and the largest node triples - which Surface3D takes for the corner
+    angle - add up to the full sphere."""
+    s_edges, s_max = corner_angle_sums(case, g)
+    full = 4.0 * math.pi - 1e-5
+    return s_edges < full - 1e-6 and s_max >= full - 1e-6
 @subcheck(PROP, "surface_block",
           strategy=lambda tier: gm.block_meshes(kinds=("hex",), row_modes=("blocks", "interleaved", "shuffled"),
                                                 want_interior=True, nmax=3 if tier == "quick" else 4,
@@ -241,12 +283,25 @@ def surface_block(case, ctx):
         v = got[k]
         if isinstance(v, float) and math.isnan(v) or bool(v) != want[k]:
             g = next(r["gnode"] for r in rows if r["node_id"] == k[0])
+            if want[k] and not (isinstance(v, float) and math.isnan(v)) and f19b_class(case, g):
+                ctx.label("missed_surface_at_non_convex_corner")
+                if ctx.known("F19_b"):
+                    continue
             raise Violation("is_at_surface flags node %d (grid index %r of block %r) in element %d as %r, expected %r"
                             % (k[0], gm.grid_nodes(case["n"])[g], case["n"], k[1], v, want[k]),
                             bucket="surface:flag_%s" % ("missed_surface" if want[k] else "false_surface"))
 
 
 # ------------------------------------------------------------------------------------------ mesh mapping
+# Conditioning of the mapping clauses.  Linear interpolation evaluates barycentric weights in a Delaunay simplex; for a simplex
+# of flatness d (height / extent) their rounding error is eps / d, whatever the implementation.  A node displaced by 1e-9 cell
+# sizes out of the plane of its neighbours makes d ~ 1e-9 and an error of 1.5e-8 max|v| (seen in the first thorough run) - that
+# is the conditioning of the input, not a property of the mapper.  The sources of the mapping clauses therefore live on a grid of
+# 1/64 cell size: every displacement / offset component is exactly 0 or >= 1/64, so d >= 1/64 / (stretch ratio 16) ~ 1e-3 and
+# the error stays below ~1e-12 max|v|, three orders under the stated tolerance 1e-9.
+MAP_STEP = 1.0 / 64.0
+
+
 @st.composite
 def _clouds(draw, dim, extra=None):
     """Point cloud spanning the space: distinct cells of a 4^dim lattice, one point per cell at an offset in [0.1, 0.9]
@@ -261,7 +316,7 @@ def _clouds(draw, dim, extra=None):
     for cidx in cells:
         p = []
         for d in range(dim):
-            p.append((cidx // 4 ** d) % 4 + draw(st.floats(0.1, 0.9)))
+            p.append((cidx // 4 ** d) % 4 + draw(st.integers(7, 57)) * MAP_STEP)      # offset 0.109 .. 0.891 in steps of 1/64
         pts.append(p)
     if dim == 3:
         aff = draw(gm.affine_maps())
@@ -287,7 +342,8 @@ def _mapping_sources(draw, tier):
     """Either a block mesh (table with one row per node and element, so coordinates repeat) or a point cloud."""
     src = draw(st.sampled_from(["mesh", "mesh", "cloud3", "cloud2"]))
     if src == "mesh":
-        mesh = draw(gm.block_meshes(kinds=("hex", "tet5", "tet6"), row_modes=("blocks", "shuffled"), max_cells=12))
+        mesh = draw(gm.block_meshes(kinds=("hex", "tet5", "tet6"), row_modes=("blocks", "shuffled"), max_cells=12,
+                                    pert_step=MAP_STEP))
         return {"src": "mesh", "mesh": mesh, "npoints": gm.node_count(mesh["n"])}
     dim = 3 if src == "cloud3" else 2
     pts = draw(_clouds(dim))
@@ -467,8 +523,7 @@ def _held_cases(draw, tier):
     if case["src"] == "mesh":
         N = gm.node_count(case["mesh"]["n"])
         aff = draw(gm.affine_maps())
-        case["geom_b"] = {"pert": draw(st.lists(st.lists(st.floats(-gm.PERT_MAX, gm.PERT_MAX), min_size=3, max_size=3),
-                                                min_size=N, max_size=N)), "A": aff["A"], "t": aff["t"]}
+        case["geom_b"] = {"pert": draw(gm.displacements(N, MAP_STEP)), "A": aff["A"], "t": aff["t"]}
     else:
         dim = len(case["points"][0])
         case["points_b"] = draw(_clouds(dim, extra=npts - dim - 1))
